@@ -242,6 +242,28 @@ def _leb128(v):
             return bytes(out)
 
 
+def _reference_encoding(name, val):
+    """the Kafka protocol's layout of the length-prefixed types, written independently of aiokafka/protocol/types.py:
+    COMPACT_* carry length + 1 as an unsigned varint (0 = null), a tagged-field section is the number of fields followed, in
+    ascending tag order, by tag, plain byte count and data; STRING has an INT16, BYTES and ARRAY an INT32 length"""
+    import struct
+    if name.startswith("CompactString"):
+        b = val.encode("utf-8"); return _leb128(len(b) + 1) + b
+    if name.startswith("CompactBytes"):
+        return _leb128(len(val) + 1) + val
+    if name.startswith("CompactArray(Int8)"):
+        return _leb128(len(val) + 1) + b"".join(struct.pack(">b", x) for x in val)
+    if name.startswith("TaggedFields"):
+        return _leb128(len(val)) + b"".join(_leb128(t) + _leb128(len(val[t])) + val[t] for t in sorted(val))
+    if name.startswith("String"):
+        b = val.encode("utf-8"); return struct.pack(">h", len(b)) + b
+    if name.startswith("Bytes"):
+        return struct.pack(">i", len(val)) + val
+    if name.startswith("Array(Int16)"):
+        return struct.pack(">i", len(val)) + b"".join(struct.pack(">h", x) for x in val)
+    return None
+
+
 def primitive_boundaries(tier):
     """'varints at every length boundary': the unsigned varint codec against an independent LEB128 encoder for every
     value up to 2^17 and bands around every 7-bit boundary, and every compact (varint-prefixed) type at lengths
@@ -288,10 +310,23 @@ def primitive_boundaries(tier):
                 dec, rest = "raised %s: %s" % (type(e).__name__, e), b"\xAA\xBB"
             if norm(dec) != norm(val) or rest != b"\xAA\xBB":
                 fails.append({"type": name, "length": n, "decoded": repr(dec)[:120], "left_in_buffer": rest.hex()})
+            # "encoding follows the Kafka protocol layout": a codec whose two halves agree with each other still has to agree
+            # with the layout a broker reads and writes
+            ref = _reference_encoding(name, val)
+            if ref is not None and not (n > 32767 and name == "String"):
+                cases += 1
+                try:
+                    enc = codec.encode(val)
+                    dref = codec.decode(io.BytesIO(ref + b"\xAA"))
+                except Exception as e:
+                    enc, dref = b"", "raised %s" % type(e).__name__
+                if enc != ref or norm(dref) != norm(val):
+                    fails.append({"type": name, "length": n, "encoded_prefix": enc[:6].hex(), "protocol_layout_prefix": ref[:6].hex(),
+                                  "decoding_the_protocol_layout": repr(dref)[:80]})
     emit({"name": "wire-type-boundaries", "exhaustive": True, "cases": cases, "distinct_nontrivial": cases,
           "bound": "UnsignedVarInt32 against an independent LEB128 encoder for every value below 2^%d, +-300 around 2^7k and "
                    "2^(7k+1), and the 32-bit extremes; compact strings/bytes/arrays, tagged fields, plain strings/bytes/arrays "
-                   "at lengths %r (the decoder must consume exactly the encoded bytes)" % (17 if tier == "quick" else 22, list(lens)),
+                   "at lengths %r (the decoder must consume exactly the encoded bytes), each also against the protocol's layout written by an independent encoder" % (17 if tier == "quick" else 22, list(lens)),
           "failures": fails[:10], "failures_total": len(fails), "replay": {"script": BOUNDARY_SCRIPT}})
 
 
